@@ -263,6 +263,8 @@ func (update *Update) compress() *compressedUpdate {
 }
 
 func (update *Update) uncompress(c *compressedUpdate) {
+	// the receiver may have been used before: a product cached for its previous events is stale
+	update.product, update.productFrom = nil, 0
 	update.SignedAccumulator = c.SignedAccumulator
 	if c.E != nil {
 		update.Events = c.E.Events
